@@ -114,9 +114,14 @@ fn random_faults(g: &mut G, sim: &mut SimScenario, n_procs: u32) {
 /// Random swarm lane. `tag` only salts the seed so that different properties' checks do not
 /// sample the same scenarios.
 pub fn lane_random(tier: Tier, seed: u64, n: usize, tag: &str) -> Vec<Scenario> {
+    lane_random_from(tier, seed, 0, n, tag)
+}
+
+/// scenarios number `start .. start + n` of the (unbounded) random lane
+pub fn lane_random_from(tier: Tier, seed: u64, start: usize, n: usize, tag: &str) -> Vec<Scenario> {
     let mut out = Vec::with_capacity(n);
     let salt = tag.bytes().fold(0u64, |a, b| a.wrapping_mul(131).wrapping_add(b as u64));
-    for i in 0..n {
+    for i in start..start + n {
         let mut g = G::new(seed ^ salt.rotate_left(17) ^ ((i as u64) << 20) ^ if tier == Tier::Cli { 0xc11 } else { 0x11b });
         let mut sim = base_sim(g.rng.next_u64());
         sim.swarm = swarm(&mut g);
